@@ -331,3 +331,63 @@ def result_wrappers(facts, rx, crates=None):
             if set(b.arg_locals(c)) & params and 0 in b.derived_from([b.call_result_local(c)]):
                 out.add(body["def"])
     return out
+
+
+def norm_def(d):
+    """def path without generic arguments (`Loader::<S, P, R>::find` and `Loader::<&'s str, P, R>::find` are one function)"""
+    prev = None
+    d = d or ""
+    while prev != d:
+        prev = d
+        d = re.sub(r"::<[^<>]*>", "", d)
+        d = re.sub(r"<[^<>]*>", "", d) if d.count("<") and not d.startswith("<") else d
+    return d
+
+
+class LocalGraph:
+    """Call graph over the polymorphic MIR bodies of the given crates: direct calls by (normalised) def path and the
+    construction of a closure counts as a use of the closure's body."""
+
+    def __init__(self, facts, crates):
+        self.bodies = {}
+        for crate, body in facts.all_mir():
+            if crate in crates:
+                self.bodies.setdefault(norm_def(body["def"]), []).append(body)
+        self._succ = {}
+
+    def uses(self, body):
+        """[(block index, target def)] of one body: calls and closure constructions"""
+        out = []
+        for i, bb in enumerate(body["bbs"]):
+            for s in bb["st"]:
+                if s.get("k") == "A" and s["r"].get("k") == "Agg" and (s["r"].get("ak") or "").startswith("Closure:"):
+                    out.append((i, norm_def(s["r"]["ak"][len("Closure:"):])))
+            t = bb["t"]
+            if t["k"] == "Call":
+                for c in (t.get("res"), t.get("fn")):
+                    if c:
+                        out.append((i, norm_def(c)))
+        return out
+
+    def succ(self, d):
+        if d not in self._succ:
+            out = set()
+            for body in self.bodies.get(d, []):
+                out |= {t for _, t in self.uses(body)}
+            self._succ[d] = out
+        return self._succ[d]
+
+    def reaches(self, d, pred, depth=6):
+        """does `d` (a def, first-party or not) satisfy pred or reach a def satisfying pred through first-party bodies?"""
+        seen = set()
+        st = [(d, 0)]
+        while st:
+            x, k = st.pop()
+            if x in seen:
+                continue
+            seen.add(x)
+            if pred(x):
+                return True
+            if k < depth and x in self.bodies:
+                st.extend((y, k + 1) for y in self.succ(x))
+        return False
